@@ -319,7 +319,9 @@ module Mg = struct
     Printf.printf "L %d%s\n" (Stdlib.List.length s.locs)
       (String.concat "" (Stdlib.List.map (fun l -> match l.l_arch with None -> " -" | Some a -> Printf.sprintf " %d:%d" (int_of_nat a) (int_of_nat l.l_idx)) s.locs));
     Printf.printf "M%s\n" (String.concat "" (Stdlib.List.map (fun h -> " " ^ hname h) s.marked));
-    Printf.printf "K %d %d %d\n" (int_of_nat s.lockc) (int_of_n s.next_eid) (Stdlib.List.length s.bufs);
+    (* next_entity_id_ has no initialiser: indeterminate until the first lock() *)
+    if Stdlib.List.length s.bufs = 0 then Printf.printf "K %d * 0\n" (int_of_nat s.lockc)
+    else Printf.printf "K %d %d %d\n" (int_of_nat s.lockc) (int_of_n s.next_eid) (Stdlib.List.length s.bufs);
     Stdlib.List.iteri (fun t b -> if b <> [] then begin
       Printf.printf "B %d" t;
       Stdlib.List.iter (fun c -> match c with
@@ -446,6 +448,89 @@ module Mg = struct
     flush ()
 end
 
+
+(* ---------------- manager specification domain (tier A of C02/C03/C05/C09/C12/C13) ---------------- *)
+module MgS = struct
+  open MgrSpec
+  let big = 1000000000
+  let parse_k tok = if String.length tok > 1 && tok.[0] = '#' then int_of_string (String.sub tok 1 (String.length tok - 1)) else big
+  let dump (s : xst) =
+    let n = int_of_nat s.x_count in
+    let alive = Array.make n false in
+    Stdlib.List.iter (fun e -> let k = int_of_nat e.e_k in if k < n then alive.(k) <- true) s.x_ents;
+    print_string "V "; Array.iter (fun b -> print_string (if b then "1" else "0")) alive; print_newline ();
+    Printf.printf "C %d\n" (int_of_nat s.x_viol);
+    let ents = Stdlib.List.sort (fun a b -> compare (int_of_nat a.e_k) (int_of_nat b.e_k)) s.x_ents in
+    Stdlib.List.iter (fun e ->
+      let strs = Stdlib.List.map (fun (c, v) ->
+        let c = int_of_nat c in
+        let inf = Stdlib.List.nth s.x_cinfos c in
+        if inf.Manager.ci_hasval then Printf.sprintf "%d=%s" c (Mg.cell_str v) else string_of_int c) e.e_comps in
+      let sh = Stdlib.List.map (fun (sid, v) -> Printf.sprintf "%d:%d" (int_of_nat sid) (Mg.int_of_coqz v)) e.e_shared in
+      Printf.printf "H #%d m=%s s=%s\n" (int_of_nat e.e_k) (match strs with [] -> "-" | l -> String.concat "," l)
+        (match sh with [] -> "-" | l -> String.concat "," l)) ents;
+    (* attach / detach counters for components with callbacks *)
+    let count l k c = Stdlib.List.length (Stdlib.List.filter (fun (k', c') -> int_of_nat k' = k && int_of_nat c' = c) l) in
+    let keys = Stdlib.List.sort_uniq compare (Stdlib.List.map (fun (k, c) -> (int_of_nat k, int_of_nat c)) (s.x_att @ s.x_det)) in
+    Stdlib.List.iter (fun (k, c) ->
+      let inf = Stdlib.List.nth s.x_cinfos c in
+      if inf.Manager.ci_aa || inf.Manager.ci_br then
+        Printf.printf "X #%d:%d att=%d det=%d\n" k c (count s.x_att k c) (count s.x_det k c)) keys
+
+  let run_script name (lines : string list) =
+    print_endline name;
+    let cis = Mg.prescan lines in
+    let maxthr = ref 16 in
+    Stdlib.List.iter (fun l -> match split_ws l with ["maxthreads"; n] -> maxthr := int_of_string n | _ -> ()) lines;
+    let st = ref (x_init (nat_of_int !maxthr) cis) in
+    let opn = ref 0 in
+    let dead = ref false in
+    Stdlib.List.iter (fun l ->
+      match split_ws l with
+      | [] -> ()
+      | t :: _ when t.[0] = '#' -> ()
+      | _ when !dead -> ()
+      | opname :: args ->
+        Printf.printf "op %d %s\n" !opn l; incr opn;
+        let apply o = st := x_step !st o; dump !st in
+        let ni s = nat_of_int (int_of_string s) in
+        let cid p = nat_of_int (reg_pal (int_of_string p)) in
+        let hasval p = int_of_string p <> 6 in
+        let nk h = nat_of_int (parse_k h) in
+        (match opname, args with
+         | ("reg" | "regs" | "maxthreads" | "threads" | "chunkcap"), _ -> ()
+         | ("arm" | "disarm" | "verchunk" | "chunkfn" | "getconst" | "getmut" | "has" | "markdirty" | "valid" | "archof" | "getshared"), _ -> dump !st
+         | ("create" | "createarch"), tid :: pals -> let (m, sids) = Mg.parse_pals pals in
+             apply (XoCreate (ni tid, n_of_int m, Stdlib.List.map nat_of_int sids, opname = "createarch"))
+         | "destroy", [tid; h] -> apply (XoDestroy (ni tid, nk h))
+         | "destroynow", [tid; h] -> apply (XoDestroyNow (ni tid, nk h))
+         | "cleararch", pals -> let (m, sids) = Mg.parse_pals pals in apply (XoClearArch (n_of_int m, Stdlib.List.map nat_of_int sids))
+         | "clear", _ -> apply XoClear
+         | ("update" | "emupdate"), _ -> apply XoUpdate
+         | "lock", _ -> apply XoLock
+         | "unlock", _ -> apply XoUnlock
+         | ("assign" | "assignid"), [tid; h; p; v] ->
+             let av = if v = "-" || not (hasval p) then None else Some (Mg.z_of_int (int_of_string v)) in
+             apply (XoAssign (ni tid, nk h, cid p, av))
+         | ("remove" | "removeid"), [tid; h; p] -> apply (XoRemove (ni tid, nk h, cid p, opname = "remove" && int_of_string p < 8))
+         | "assignshared", [h; sp; v] -> apply (XoAssignShared (nk h, nat_of_int (Mg.reg_shared (int_of_string sp)), Mg.z_of_int (int_of_string v)))
+         | "removeshared", [h; sp] -> apply (XoRemoveShared (nk h, nat_of_int (Mg.reg_shared (int_of_string sp))))
+         | "clone", [h] -> apply (XoClone (nk h))
+         | "set", [h; p; v] -> apply (XoSet (nk h, cid p, Mg.z_of_int (int_of_string v)))
+         | "dep", a :: pals -> let (m, _) = Mg.parse_pals pals in apply (XoDep (cid a, n_of_int m))
+         | _ -> print_endline "ERR unsupported-op"; dead := true)) lines
+
+  let run () =
+    let cur_name = ref None and cur = ref [] in
+    let flush () = (match !cur_name with Some n -> run_script n (Stdlib.List.rev !cur) | None -> ()); cur := [] in
+    (try while true do
+      let l = input_line stdin in
+      if String.length l >= 4 && String.sub l 0 4 = "====" then (flush (); cur_name := Some l)
+      else cur := l :: !cur
+    done with End_of_file -> ());
+    flush ()
+end
+
 let run_lines f =
   try
     while true do
@@ -460,4 +545,5 @@ let () =
   | _ :: "skel" :: _ -> Sk.run ()
   | _ :: "skelspec" :: _ -> SkS.run ()
   | _ :: "mgr" :: _ -> Mg.run ()
+  | _ :: "mgrspec" :: _ -> MgS.run ()
   | _ -> prerr_endline "usage: runner <domain>"; exit 2
